@@ -156,7 +156,11 @@ def run_positive(i):
             try:
                 model.event(key, mcv, p, j)
             except refemu.Reject as ex:
-                raise core.HarnessError("generator produced an illegal program: %s at %s" % (ex, mcv))
+                # the program was legal, the library ran it to the end and the emulator
+                # accepted the trace, but what the library wrote is not a legal mark
+                # history (mismatched pop, zero value, undeclared type ...)
+                res["viol"] = ("written-history-illegal-but-accepted", "the streams libovni wrote hold %s (%s), which the "
+                               "emulator accepted" % (mcv, ex), {}); return res
             a = model.thread_view(); a.update(model.model_thread_view())
             b = model.cpu_view(); b.update(model.model_cpu_view())
             tv.append(a); cv.append(b)
